@@ -1,3 +1,31 @@
-/* caller-identity helper: does nothing, forever (killed with the sandbox) */
+/* caller-identity helper: does nothing, forever (killed with the sandbox).
+ * If its stdin is a pipe it first waits for one command line:
+ *   "exec <path>\x1f<arg1>\x1f<arg2>...\n"  -> execv(path, [path, arg1, ...]) in the same pid (a process that becomes another program)
+ * EOF or anything else -> just pause. */
+#include <string.h>
 #include <unistd.h>
-int main(void) { for (;;) pause(); return 0; }
+int main(void) {
+    static char buf[8192];
+    ssize_t n = 0, k;
+    while (n < (ssize_t)sizeof buf - 1 && (k = read(0, buf + n, sizeof buf - 1 - n)) > 0) {
+        n += k;
+        if (memchr(buf, '\n', n)) break;
+    }
+    if (n > 5 && !memcmp(buf, "exec ", 5)) {
+        char *argv[64];
+        int argc = 0;
+        char *p = buf + 5;
+        char *nl = memchr(buf, '\n', n);
+        if (nl) *nl = 0; else buf[n] = 0;
+        while (p && argc < 63) {
+            char *sep = strchr(p, '\x1f');
+            if (sep) *sep = 0;
+            argv[argc++] = p;
+            p = sep ? sep + 1 : 0;
+        }
+        argv[argc] = 0;
+        execv(argv[0], argv);
+    }
+    for (;;) pause();
+    return 0;
+}
